@@ -72,6 +72,8 @@ type H struct {
 	extraReqs []*Req
 	// exactly-once identifiers whose ownership was taken before this generation (C04)
 	inheritedOwned map[uint16]bool
+	// the case closes the client: ErrClosed on exchanges is expected
+	closing bool
 }
 
 func newH(rt *rapid.T, prop string, o sim.Options) *H {
